@@ -665,7 +665,7 @@ Print Assumptions c09_hist_method.
     The tables are proved by evaluating the generated boolean functions on all combinations of flags, so any equivalent nesting
     or ordering of the tests is accepted.  Trusted: the translator (which statements it skips). *)
 From Hoot Require Import GenLib Gen2.
-From Hoot.proofs Require Import Gen2_equiv_flow.
+From Hoot.proofs Require Import Gen2_equiv_flow_graph.
 Theorem c09_code_send_request_table : forall cp ssb aw,
   gen_next_send_request cp ssb aw =
   (if negb cp then None else Some (if ssb then (if aw then TAwait100 else TSendBody) else TRecvResponse), []).
